@@ -251,10 +251,26 @@ func check(c Case) vk.Verdict {
 					got[k] = x
 				}
 			}
-			sess.Release()
 			if fmt.Sprint(got) != fmt.Sprint(r.data) {
+				sess.Release()
 				return vk.Failf("op %d: store.GetByID(%q) sees %v, last saved %v", i, id, got, r.data)
 			}
+			if op.Save {
+				// a background job touches the session and saves it: the idle timeout starts again, like any other save
+				val := fmt.Sprintf("job%d", i)
+				sess.Set("c", val)
+				if err := sess.Save(); err != nil {
+					sess.Release()
+					return vk.Failf("op %d: Save() after store.GetByID(%q): %v", i, id, err)
+				}
+				nd := map[string]string{}
+				for k, x := range r.data {
+					nd[k] = x
+				}
+				nd["c"] = val
+				model[id] = &rec{data: nd, exp: now() + uint32(c.Idle)}
+			}
+			sess.Release()
 			continue
 		}
 		// ---- a request
@@ -462,7 +478,8 @@ func genCase(t *rapid.T) Case {
 		case k <= 1:
 			c.Ops = append(c.Ops, ReqOp{Kind: "adv", Dt: rapid.SampledFrom([]int{1, 1, 2, 3, 6, 61}).Draw(t, "dt")})
 		case k == 2:
-			c.Ops = append(c.Ops, ReqOp{Kind: "getbyid", Client: rapid.IntRange(0, 2).Draw(t, "client"), Present: rapid.SampledFrom([]string{"own", "own", "stale", "forged"}).Draw(t, "which"), Pick: rapid.IntRange(0, 5).Draw(t, "pick")})
+			c.Ops = append(c.Ops, ReqOp{Kind: "getbyid", Client: rapid.IntRange(0, 2).Draw(t, "client"), Present: rapid.SampledFrom([]string{"own", "own", "stale", "forged"}).Draw(t, "which"), Pick: rapid.IntRange(0, 5).Draw(t, "pick"),
+				Save: rapid.IntRange(0, 2).Draw(t, "gsave") == 0})
 		case k == 3:
 			c.Ops = append(c.Ops, ReqOp{Kind: "delete", Client: rapid.IntRange(0, 2).Draw(t, "client"), Present: "own"})
 		default:
